@@ -552,7 +552,9 @@ def tal_ref(template: str, globs: dict) -> str:
 
 
 # =================================================================== generators ====
-CANARIES = ['"><xss-7 onx-7=1>', "'", "&", "</b>", "<script>"]
+CANARIES = ['"><xss-7 onx-7=1>', "'", "&", "</b>", "<script>",
+            # text that already holds a complete character reference next to live markup ("already escaped" it is not)
+            "Fish &amp; Chips <xss-7 onx-7=1>", "&#169; 2009 <xss-7>", "&lt;ok&gt; <xss-7>", "&#x3c;<xss-7 onx-7=1>&nbsp;"]
 _WORDS = ["alpha", "Bravo two", "c&d", "e<f>g", 'say "hi"', "it's", "x", "café", "0", "a;b"]
 
 
